@@ -63,8 +63,8 @@ PROPS = {
                      {"name": "asan-nosse-guard", "flavour": "asan-nosse", "driver": "drv_pure", "args": [], "shards": 8},
                      {"name": "threads", "flavour": "asan", "driver": "drv_pure", "args": ["--mode", "threads"], "shards": 4}]},
     "C14": api("C14", "exploration",
-               "history + executable model: all canonical action sequences over <=4 slots with alphabet {create rs(4,2), rs(3,3), xor(5,5,3), null, failed-create, destroy(dead), destroy(slot), use(slot)} up to depth 4 (quick) / 6 (thorough), each with and without the descriptor counter preset to INT_MAX-3; "
-               "random histories of length 10..200 with counter presets {none, INT_MAX-3, INT_MAX-1, -5}; all 24 destruction orders of four RS instances; after every step: registry length == |model|, descriptor positive and unique, APIs on dead descriptors fail, used instance round-trips (decode with data loss + re-encode equals kept stripe); "
+               "history + executable model: all canonical action sequences over <=4 slots with alphabet {create rs(4,2), rs(3,3), xor(5,5,3), null, failed-create, destroy(dead), destroy(slot), use(slot)} up to depth 4 (quick) / 6 (thorough), each with and without a descriptor-counter preset (counter jumps to INT_MAX-1 after the second create so that the wrap lands on live descriptors); "
+               "random histories of length 10..200 with counter presets {none, jump after 2nd/3rd create, INT_MAX-1 from the start, -5}; all 24 destruction orders of four RS instances; after every step: registry length == |model|, descriptor positive and unique, APIs on dead descriptors fail, used instance round-trips (decode with data loss + re-encode equals kept stripe); "
                "non-trivial = every history; distinct = (action sequence, preset)",
                exhaustive={"quick": True, "thorough": True},
                exhaustive_scope="all canonical sequences up to depth 4 (quick) / 6 (thorough) over the stated alphabet; longer histories are random",
@@ -72,7 +72,8 @@ PROPS = {
     "C16": api("C16", "exploration",
                "case = one random API history (20..300 steps, 4 slots, all available backends) mixing create/destroy/encode/decode (ok, too few, unrecoverable, duplicates, bad header, re-sealed edits)/reconstruct (ok, too few, bad destination)/fragments_needed/metadata/validation/invalid arguments/unsupported shapes, each step followed by its cleanup call; "
                "monitors: ASan (double free, use-after-free, overflow), LeakSanitizer recoverable check every 16 histories and at exit, conservation ledger (library-allocated live blocks and dlopen balance back to the pre-step value after every self-contained step and to the baseline at the end of each history); "
-               "non-trivial = every history; distinct = history index/seed",
+               "plus a systematic part: every erasure set within tolerance of all 38 flat-XOR tables (exhaustive; covers each failure-pattern branch) and of RS/ISA-L shapes, decode+cleanup and reconstruct of every erased index with ledger delta 0 per case; "
+               "non-trivial = every history / erasure set; distinct = history index/seed or (config, erasure set)",
                require_stats=["rc_decode_0", "rc_decode_EINSUFFFRAGS", "rc_decode_EBADHEADER", "rc_reconstruct_0", "rc_reconstruct_EINSUFFFRAGS", "rc_reconstruct_EINVALIDPARAMS",
                               "rc_create_EBACKENDINITERR", "rc_create_EBACKENDNOTAVAIL", "rc_create_EINVALIDPARAMS", "rc_create_EBACKENDNOTSUPP", "rc_encode_0", "rc_invalid_arg_call_EINVALIDPARAMS"]),
     "C17": api("C17", "fault_enumeration",
